@@ -48,7 +48,7 @@ def build_conf_table(p):
     )
 
 
-def gen_scores(table, seed, tie_mode=False, correct_shift=3.0):
+def gen_scores(table, seed, tie_mode=False, correct_shift=3.0, mode="plain"):
     """Score vector: continuous and distinct; in tie mode exact ties are planted
     inside spectra and inside peptides."""
     rng = random.Random(f"scores|{seed}")
@@ -61,6 +61,15 @@ def gen_scores(table, seed, tie_mode=False, correct_shift=3.0):
         while s[i] in seen:
             s[i] = float(f"{s[i] + 1e-6 * rng.randint(1, 999):.6f}")
         seen.add(s[i])
+    if mode == "zero_anchor" and n > 2:
+        # what per-fold calibration produces: one PSM scores exactly 0.0, others lie on both sides
+        order = sorted(range(n), key=lambda i: s[i])
+        k = order[rng.randint(n // 4, 3 * n // 4)]
+        base = s[k]
+        s = [float(f"{v - base:.6f}") for v in s]
+    elif mode == "quantised":
+        # integer-like / rounded scores used directly: many exact ties, values straddling zero
+        s = [round(v * 2) / 2 for v in s]
     if tie_mode:
         cols = table["columns"]
         si = [cols.index(c) for c in table["meta"]["spectrum"]]
